@@ -21,3 +21,12 @@ PROPS = {
         **tiers(16, 40, 60, 16, 1500, 600, min_evals=2000, min_cells=20),
     ),
 }
+
+
+MANIFEST_TEXT = {
+    "C05": dict(
+        technique="runtime monitoring: RecNet ban/disconnect monitor + bounded-progress convergence oracle over generated honest sync histories",
+        level_text="Held on N generated honest histories (variable-difficulty chains with real Eaglesong PoW or dummy PoW at 2^100..2^190 difficulty, 1-4 peers incl. lagging views, growth, restarts, shallow reorgs, joins/leaves) in which the client's own random FlyClient requests are answered by an RFC-conformant server: no ban, no unexplained disconnect, no panic, tip = heaviest announced tip within 60 scheduler rounds. Exploration, not proof: reach is the generated scenario space.",
+        level_note="honest server simulator and chain generator are part of the trusted base; check point interval > last-N as in production; liveness restated as bounded progress (R=60 rounds, measured max 8)",
+    ),
+}
